@@ -1,7 +1,7 @@
 PROP = dict(
         engine="lock", harness="lock", driver="drv_lock",
         props=["Hostd.Props.C15"],
-        quick=dict(n=1600, len=40, shards=8, timeout=300),
+        quick=dict(n=6400, len=40, shards=8, timeout=300),
         thorough=dict(n=96000, len=60, shards=16, timeout=1500),
         nontrivial=r"^(race|unlock|cancel) .*rets=\[[^\]]*[aef]", min_ops=6, min_kinds=3,
         shrink_budget=80,
